@@ -170,6 +170,14 @@ var slotTemplates = []template{
 		{"x", "x.y", "x[0]", "1", "", "z := 1; z"},
 		{"++", "--"},
 		{"", "++", "x", ";", "; z"}}},
+	{"multiline-token", [][]string{
+		// tokens that span lines (raw strings, template strings, block comments), complete and truncated, at
+		// several columns and in places where the grammar takes them and where it does not: the error then
+		// points at a token whose end lies on a later line and to the LEFT of its start
+		{"", "x := ", "text := ", "        f(", "[1, ", "x.", "x := 1 +", "if ", "func ", "for i := range ", "{\"k\": "},
+		{"`a`", "`first line\nsec`", "`first line\nsec", "`\n`", "`\n", "`aaaaaaaa\n", "`aaaaaaaa\n\nb`", "'first {x}\nsec'", "'first {x}\nsec", "'a{\n1}b'", "'a{`\n`}b'",
+			"\"first line\nsec\"", "\"first line\nsec", "/* a\nb */", "/* a\nb", "`first line\r\nsec", "`\n\n\n", "`é\né"},
+		{"", ")", "]", " + 1", " 1", "`", " {", "\n", "}", ".y", "(", " `b\nc`", " `b\nc"}}},
 }
 
 const slotPrelude = "x := [1, 2, 3]\ny := {\"a\": 1}\nf := func(a=0, b=0) { return a }\n"
